@@ -92,11 +92,12 @@ def cases(rng, tier):
                              "part": [0, 0, 1], "form": rng.choice(["dict", "single"]), "N": None, "seed": 0})
     # a partition that measures nine qubits in one group, results in SamplerV2 format (the observable register spans two bytes)
     for _ in range(1 if tier == "quick" else 3):
-        instrs = [{"name": "h", "qubits": [q]} for q in rng.sample(range(9), 3)] + [{"name": "x", "qubits": [rng.randrange(9)]}]
-        instrs += [{"name": "cx", "qubits": [q, q + 1]} for q in range(0, 8) if rng.random() < 0.6]
+        # qubit 0 is flipped and qubit 8 is not: the lowest and the highest bit of the nine-bit register differ
+        instrs = [{"name": "x", "qubits": [0]}] + [{"name": "h", "qubits": [q]} for q in rng.sample(range(2, 7), 2)]
+        instrs += [{"name": "cx", "qubits": [q, q + 1]} for q in range(1, 7) if rng.random() < 0.6]
         instrs += [{"name": "cx", "qubits": [8, 9]}, {"name": rng.choice(["h", "x", "s"]), "qubits": [9]}]
         yield ("roundtrip", {"nq": 10, "qregs": [10], "instrs": instrs, "labels": [0] * 9 + [1], "pool_idx": rng.sample(range(len(workflow.gen.LABEL_POOL)), 2),
-                             "obs": [{"l": "ZZZZZZZZZZ", "p": 0}, {"l": "ZIZIZIZIZZ", "p": 0}, {"l": "IZZZZZZZZI", "p": 0}], "idle": [],
+                             "obs": [{"l": "ZZZZZZZZZZ", "p": 0}, {"l": "ZIIIIIIIIZ", "p": 0}, {"l": "IIIIIIIIZZ", "p": 0}, {"l": "ZIZIZIZIZI", "p": 0}], "idle": [],
                              "part": [0] * 9 + [1], "form": "dict", "N": None, "seed": 0, "v2": True})
     for gate in (rng.sample(asym, 4) if tier == "quick" else asym):
         p = _descending_case(rng, gate)
